@@ -2,7 +2,15 @@
 
 package spec
 
-import "sort"
+import (
+	"bytes"
+	"encoding/json"
+	"os"
+	"runtime"
+	"sort"
+	"strconv"
+	"sync"
+)
 
 // Verification hooks (build tag verif): observation points for the TLA+ trace
 // validation in /verif. They are inert unless a test harness installs the
@@ -87,4 +95,38 @@ func VerifCloneCache(c ResolutionCache) ResolutionCache {
 // VerifCacheOrDefault exposes cacheOrDefault (lazy initialisation + clone of the package cache).
 func VerifCacheOrDefault(c ResolutionCache) ResolutionCache {
 	return cacheOrDefault(c)
+}
+
+// When VERIF_TRACE_FILE is set (verification builds only), every internal event is appended to
+// that file as one JSON line {"g": goroutine id, "e": [event, args...]}: this turns any program
+// linked with this build - the package's own test suite included - into a trace source.
+func init() {
+	path := os.Getenv("VERIF_TRACE_FILE")
+	if path == "" {
+		return
+	}
+	f, err := os.OpenFile(path, os.O_CREATE|os.O_WRONLY|os.O_APPEND, 0o644)
+	if err != nil {
+		return
+	}
+	var mu sync.Mutex
+	VerifTrace = func(ev string, args ...string) {
+		var buf [64]byte
+		n := runtime.Stack(buf[:], false)
+		fields := bytes.Fields(buf[:n])
+		g := 0
+		if len(fields) > 1 {
+			g, _ = strconv.Atoi(string(fields[1]))
+		}
+		line, err := json.Marshal(struct {
+			G int      `json:"g"`
+			E []string `json:"e"`
+		}{g, append([]string{ev}, args...)})
+		if err != nil {
+			return
+		}
+		mu.Lock()
+		_, _ = f.Write(append(line, '\n'))
+		mu.Unlock()
+	}
 }
